@@ -147,7 +147,23 @@ class _Walker(object):
             for c in inner:
                 self.stmt(c, lp, br)
             return
-        if k in ("CompoundStmt", "DeclStmt", "VarDecl", "ReturnStmt", "SwitchStmt", "CaseStmt", "DefaultStmt", "LabelStmt", "NullStmt", "BreakStmt", "ContinueStmt", "GotoStmt"):
+        if k == "CompoundStmt":
+            # an `if` whose branch ends in continue / break / return / goto and that has no (or a falling-through) other branch: what follows in the block is executed only
+            # on the other branch - `if (c) { A; continue; } B;` is `if (c) A else B` for the ordering of union accesses
+            cur = br
+            for c in inner:
+                self.stmt(c, loops, cur)
+                if c.get("kind") == "IfStmt":
+                    parts = [x for x in (c.get("inner") or []) if isinstance(x, dict)][1:]
+                    term = [_terminates(x) for x in parts]
+                    if len(parts) == 1 and term[0]:
+                        cur = cur + ((c.get("id"), 1),)
+                    elif len(parts) == 2 and term[0] and not term[1]:
+                        cur = cur + ((c.get("id"), 1),)
+                    elif len(parts) == 2 and term[1] and not term[0]:
+                        cur = cur + ((c.get("id"), 0),)
+            return
+        if k in ("DeclStmt", "VarDecl", "ReturnStmt", "SwitchStmt", "CaseStmt", "DefaultStmt", "LabelStmt", "NullStmt", "BreakStmt", "ContinueStmt", "GotoStmt"):
             for c in inner:
                 self.stmt(c, loops, br)
             return
@@ -172,6 +188,17 @@ def _annotate_lines(n, cur):
     for c in n.get("inner") or []:
         if isinstance(c, dict):
             _annotate_lines(c, cur)
+
+
+def _terminates(n):
+    """does this statement always leave the enclosing block (ends in continue / break / return / goto)?"""
+    k = n.get("kind")
+    if k in ("ContinueStmt", "BreakStmt", "ReturnStmt", "GotoStmt"):
+        return True
+    if k == "CompoundStmt":
+        inner = [c for c in (n.get("inner") or []) if isinstance(c, dict)]
+        return bool(inner) and _terminates(inner[-1])
+    return False
 
 
 def _exclusive(b1, b2):
